@@ -313,6 +313,9 @@ class Job:
         # This is true if we fetched the result from the cache.
         self.was_cached: bool = False
 
+        # This is true while the job holds the resources given by its limits.
+        self.holds_resources: bool = False
+
         # Hash of the CallNode associated with running this job. This hash requires knowledge
         # of the Job's result, hence is available after either computing or retrieving the result.
         self.call_hash: Optional[str] = None
@@ -1776,6 +1779,7 @@ class Scheduler:
                 self._add_job_pending_limits(job, eval_args)
                 return
             self._consume_resources(job_limits)
+            job.holds_resources = True
 
         # Record that the job is actually starting.
         if job.recording_provenance():
@@ -1854,7 +1858,8 @@ class Scheduler:
         assert self.thread_id == threading.get_ident()
 
         # Cached jobs won't have used any resources.
-        if not job.was_cached:
+        if job.holds_resources:
+            job.holds_resources = False
             self._release_resources(job.get_limits())
             self._check_jobs_pending_limits()
 
@@ -2082,8 +2087,10 @@ class Scheduler:
                 )
             )
 
-            # Cached jobs won't have used any resources.
-            if not job.was_cached:
+            # Cached jobs won't have used any resources, and a job that already finished running
+            # (it is rejected because evaluating its result failed) has returned them already.
+            if job.holds_resources:
+                job.holds_resources = False
                 self._release_resources(job.get_limits())
                 self._check_jobs_pending_limits()
 
